@@ -6,6 +6,7 @@ import loadcheck
 import compcheck
 import c13check
 import c18check
+import c15check
 
 CHECKS = {}
 META = {}
@@ -126,3 +127,14 @@ META["C18"] = {
 }
 ENGINES.append({"name": "sketch-fold", "path": "tools/c18check.py", "serves_properties": ["C18"],
                 "kind_free_text": "TLC on spec/Sketch.tla; harness/otter/verif_sketch_test.go; spec/SketchTrace.tla"})
+
+CHECKS["C15"] = c15check.run
+META["C15"] = {
+    "engine": "table-linearizability",
+    "text": "histories of concurrent get / compute / delete on the real table (growth, shrink, pinned collisions inside one bucket chain, all initial capacities) are linearizable w.r.t. a sequential map with every update function applied exactly once (LinTrace.tla, search); iterations yield every stable key exactly once, never a key twice, never a value replaced before they began, and Size equals the number of keys at quiescence (RangeHist.tla)",
+    "design_ref": "DESIGN.md section 6 (C15)",
+    "note": "linearizability is decided per recorded history (2-4 clients, <= 8 keys, 30-60 operations each); gate-scheduled runs serialise at the per-access hooks of map.go",
+    "technique": "TLA+ spec of the sequential map with linearisation points as silent steps (LinTrace.tla) checked by TLC search over recorded histories + TLA+ judge for iteration/size (RangeHist.tla)",
+}
+ENGINES.append({"name": "table-linearizability", "path": "tools/c15check.py", "serves_properties": ["C15"],
+                "kind_free_text": "harness/hashmap/verif_clht_test.go histories; spec/LinTrace.tla (TLC depth-first search, high-water acceptance); spec/RangeHist.tla"})
